@@ -591,3 +591,47 @@ def fold(ctx, results, bounds, extra_bounds=None, nontrivial=None):
         if isinstance(v, int) and k not in cov:
             cov["n_" + k.replace(":", "_")] = v
     return cov
+
+
+# ---------------------------------------------------------------------------------------------
+# plans: which sources of which targets a tier enumerates (the stated bound of a check)
+
+# one byte order per architecture: the order in which test/arch lists its vectors
+NATIVE = ["x86_16", "x86_32", "x86_64", "arml", "armtl", "aarch64l", "mips32b", "ppc32b", "msp430", "mepb", "sh4"]
+SWAPPED = ["armb", "armtb", "aarch64b", "mips32l", "mepl"]
+
+
+def cube_dims(by_kind, targets):
+    """{target: dims} from {target kind: dims}."""
+    return dict((n, by_kind[Target(n).kind]) for n in targets if Target(n).kind in by_kind)
+
+
+def make_plan(bounds, targets, only=None):
+    """bounds = {"curated": [targets], "bitflip": [...], "bytesub": [...], "cube": {target: dims}, "shard": n}
+    -> list of shards (target, kind, dims, lo, hi)."""
+    out = []
+    for name in targets:
+        if only and name not in only:
+            continue
+        for kind in ("curated", "bitflip", "bytesub"):
+            if name in bounds.get(kind, ()):
+                out += shards(name, kind, None, bounds["shard"])
+        dims = bounds.get("cube", {}).get(name)
+        if dims:
+            out += shards(name, "cube", dims, bounds["shard"])
+    return out
+
+
+def plan_sizes(bounds, targets):
+    """{target: {kind: number of indexes}} - recorded under coverage.bounds."""
+    out = {}
+    for name in targets:
+        d = {}
+        for kind in ("curated", "bitflip", "bytesub"):
+            if name in bounds.get(kind, ()):
+                d[kind] = source(name, kind).n
+        dims = bounds.get("cube", {}).get(name)
+        if dims:
+            d["cube"] = source(name, "cube", dims).n
+        out[name] = d
+    return out
